@@ -58,8 +58,9 @@ def r1_ceil(line):
 RULES = [
     ("R1", None, None, "`(E).ceil() as usize` -> `f64_ceil_to_usize(E)`"),
     ("R2", re.compile(r'\b([A-Za-z_][A-Za-z0-9_]*) as f64\b'), r'usize_to_f64(\1)', "`x as f64` -> `usize_to_f64(x)`"),
-    ("R9", None, None, "`for &X in &V {` (body uses `continue`) -> index `while` loop, increment first"),
-    ("R3", re.compile(r'\bfor &([A-Za-z_][A-Za-z0-9_]*) in ([^{]+?) \{'), r'for \1__r in \2 { let \1 = *\1__r;', "`for &x in E {` -> `for x__r in E { let x = *x__r;`"),
+    ("R9", None, None, "`for &X in &E {` -> `let mut X__k = 0; while X__k < E.len() { let X = E[X__k]; X__k += 1;` (index loop, increment first so `continue` keeps its meaning)"),
+    ("R15", None, None, "`for X in &E {` -> same index loop with `let X = &E[X__k];`"),
+    ("R16", None, None, "`for X in V {` (V a Vec of Copy elements, by value) -> same index loop with `let X = V[X__k];`"),
     ("R4", re.compile(r'\bf64::INFINITY\b'), 'f64_infinity()', "`f64::INFINITY` -> `f64_infinity()`"),
     ("R5", re.compile(r'\bfor \(([A-Za-z_]\w*), ([A-Za-z_]\w*)\) in ([A-Za-z_]\w*)\.iter\(\)\.enumerate\(\)\.skip\((\d+)\) \{'),
      r'for \1 in \4..\3.len() { let \2 = &\3[\1];', "`for (i, x) in v.iter().enumerate().skip(k) {` -> `for i in k..v.len() { let x = &v[i];`"),
@@ -101,27 +102,29 @@ def apply_rewrites(lines, r9_loops):
 
 
 def apply_r9(text):
-    """R9 works on whole text because it must look into the loop body for `continue`."""
-    n = 0
-    while True:
-        s = Src(text)
-        done = True
-        for mm in s.find_code(r'\bfor &([A-Za-z_]\w*) in &([A-Za-z_]\w*) \{'):
-            o = mm.end() - 1
-            c = s.match_brace(o)
-            body = text[o:c]
-            bs = Src(body)
-            has_continue = any(True for _ in bs.find_code(r'\bcontinue\b'))
-            if not has_continue:
-                continue
-            x, v = mm.group(1), mm.group(2)
-            rep = "let mut %s__k: usize = 0; while %s__k < %s.len() { let %s = %s[%s__k]; %s__k += 1;" % (x, x, v, x, v, x, x)
-            text = text[:mm.start()] + rep + text[mm.end():]
-            n += 1
-            done = False
-            break
-        if done:
-            return text, n
+    """R9 / R15 / R16: `for` loops over a collection become index `while` loops (increment first, so
+    `continue` keeps its meaning).  Range loops (`a..b`, `a..=b`) are left alone.  Line preserving."""
+    counts = {"R9": 0, "R15": 0, "R16": 0}
+    s = Src(text)
+    edits = []
+    for mm in s.find_code(r'\bfor (&?)([A-Za-z_]\w*) in (&?)([^{]+?) \{'):
+        pat_ref, x, it_ref, e = mm.group(1), mm.group(2), mm.group(3), mm.group(4).strip()
+        if '..' in e:
+            continue
+        if it_ref == '&' and pat_ref == '&':
+            rid, bind = "R9", "let %s = %s[%s__k];" % (x, e, x)
+        elif it_ref == '&':
+            rid, bind = "R15", "let %s = &%s[%s__k];" % (x, e, x)
+        elif re.match(r'^[A-Za-z_]\w*$', e) and pat_ref == '':
+            rid, bind = "R16", "let %s = %s[%s__k];" % (x, e, x)
+        else:
+            continue
+        rep = "let mut %s__k: usize = 0; while %s__k < %s.len() { %s %s__k += 1;" % (x, x, e, bind, x)
+        edits.append((mm.start(), mm.end(), rep))
+        counts[rid] += 1
+    for a2, b2, rep in sorted(edits, reverse=True):
+        text = text[:a2] + rep + text[b2:]
+    return text, counts
 
 
 # ----------------------------------------------------------------------------------------------
@@ -246,6 +249,10 @@ def _resolve(s, ann):
             at = s.line_end(l['close'])
             return [(at, at, body, True)]
         if which == 'loop-body-start':
+            # desugared collection loops (R9/R15/R16) bind the element on the header line: go after it
+            eol = s.line_end(l['open'])
+            if text[l['open'] + 1:eol].strip():
+                return [(eol, eol, body, True)]
             return [(l['open'] + 1, l['open'] + 1, '\n' + body, True)]
         if which == 'loop-end':
             st = s.line_start(l['close'])
@@ -412,11 +419,11 @@ def build_unit(unit):
         # rewrite rules (line preserving)
         lines = [ln for _, ln in keep]
         body = "".join(lines)
-        body, n9 = apply_r9(body)
+        body, c9 = apply_r9(body)
         lines2 = body.splitlines(True)
         assert len(lines2) == len(lines), "R9 must preserve line count"
         lines2, hits = apply_rewrites(lines2, {})
-        hits["R9"] = n9
+        hits.update(c9)
         for extra in getattr(unit, 'EXTRA_RULES', {}).get(rel, []):
             rid, rx, rep, desc = extra
             cnt = 0
